@@ -105,6 +105,11 @@ func (s *scanner) ScanToken() (Object, error) {
 			s.SkipByte()
 			return Operator(">>"), nil
 		default:
+			if len(bb) == 2 {
+				// the byte after the '>' is known: the state of the
+				// underlying reader has nothing to do with it
+				return nil, &postScriptError{eSyntaxerror, "unexpected '>'"}
+			}
 			err := s.err
 			if err == nil {
 				err = &postScriptError{eSyntaxerror, "unexpected '>'"}
